@@ -99,7 +99,7 @@ var selectorColumns = []string{
 }
 
 func (b *fqBuilder) selectItem(prefix string, nestedOK bool) string {
-	kinds := []string{"col", "stub", "concat", "case", "arith", "subquery", "stub", "backref", "once_stub", "if_arg", "between", "in_list"}
+	kinds := []string{"col", "stub", "concat", "case", "arith", "subquery", "stub", "backref", "once_stub", "if_arg", "between", "in_list", "await_stub"}
 	if b.asyncOK {
 		kinds = append(kinds, "async", "spin", "spinasync")
 	}
@@ -119,6 +119,10 @@ func (b *fqBuilder) selectItem(prefix string, nestedOK bool) string {
 		b.usedOnce = true
 		s := b.next("once_qualified_call")
 		return fmt.Sprintf("ONCE.fid(%d, %s) AS x%d", s, col("a"), s)
+	case "await_stub":
+		// the awaited expression is evaluated by a post-processor, after the rows were built
+		s := b.next("awaited_expression")
+		return fmt.Sprintf("AWAIT(fid(%d, %s)) AS x%d", s, col("a"), s)
 	case "if_arg":
 		s := b.next("function_argument")
 		return fmt.Sprintf("IF(%s >= 20, fid(%d, %s), %s) AS x%d", col("a"), s, col("a"), col("id"), s)
@@ -234,7 +238,7 @@ func genFaultQueryRisky(t *rapid.T, root string, asyncOK, riskyArgs bool) faultQ
 	for attempt := 0; ; attempt++ {
 		b := &fqBuilder{t: t, root: root, asyncOK: asyncOK, riskyArgs: riskyArgs}
 		shape := rapid.SampledFrom([]string{"simple", "derived", "cte", "cte_chain", "group_having", "union", "join", "modifiers", "star", "nested_sub",
-			"cte_union", "derived_with", "join_derived_with", "cte_direct", "join_on_func", "selector_cols", "selector_from", "cte_twice", "derived_in_join"}).Draw(t, "shape")
+			"cte_union", "derived_with", "join_derived_with", "cte_direct", "join_on_func", "selector_cols", "selector_from", "cte_twice", "derived_in_join", "lazy_cte"}).Draw(t, "shape")
 		var q string
 		open := false
 		switch shape {
@@ -291,6 +295,10 @@ func genFaultQueryRisky(t *rapid.T, root string, asyncOK, riskyArgs bool) faultQ
 		case "cte_twice":
 			s := b.next("cte_body_read_twice")
 			q = fmt.Sprintf("WITH c AS (SELECT id, a, fid(%d, a) AS x%d FROM %s) SELECT id, (SELECT a FROM `<-c` WHERE a >= 10) AS again FROM c", s, s, T)
+		case "lazy_cte":
+			// the CTE is not read by FROM: it is evaluated lazily, during Exec, when the first row-scoped subquery reaches it
+			s := b.next("lazily_evaluated_cte_body")
+			q = fmt.Sprintf("WITH c AS (SELECT id, fid(%d, a) AS x%d FROM %s) SELECT id, (SELECT x%d FROM `<-c` WHERE id >= 2) AS sub FROM %s%s", s, s, T, s, T, b.where("", false))
 		case "derived_in_join":
 			s := b.next("derived_table_in_join")
 			q = fmt.Sprintf("SELECT * FROM (SELECT id, fid(%d, a) AS a FROM %s) x JOIN %s y ON x.id = y.id", s, T, U)
